@@ -426,6 +426,8 @@ func (g *c13Gen) boundaryScenarios() {
 		"map 61 1 1 6b x 0", "map 61 1 1 6b x 1", "map 61 1 1 6b x 2", "list 61 1 x 3", "list 61 1 x 4", "map 61 1 1 6b x 5",
 		"map 61 1 1 - s 78", "map 61 1 1 " + hxs(c13Marker) + " i 2", "map 61 1 1 " + hxs(c13Marker) + " s 78", "map 61 1 1 " + hxs(c13Marker) + " i -1",
 		"map 61 1 2 0200000000 s 78 " + hxs(c13Marker) + " i 1",
+		"map 61 1 1 6b m 1 " + hxs(c13Marker) + " i 2", "list 61 1 m 1 " + hxs(c13Marker) + " i 0", "map 61 1 1 6b m 1 " + hxs(c13Marker) + " s 78",
+		"map 61 1 1 6b m 2 0200000000 b 1 " + hxs(c13Marker) + " i 1",
 		"slist 61 4 62 61 62 - ", "slist 61 3 - - -", "list 61 2 a 1 a 1 a 1 a 0 m 1 6b m 1 6b m 1 6b m 0"} {
 		g.single(strings.TrimSpace(v), a)
 	}
